@@ -996,6 +996,8 @@ impl Ranking {
             // ... and one in six ends with such characters (a title and its whitespace-extended twin are different titles)
             let trail = if rng.chance(1, 6) { *rng.pick(&[" ", "  ", "\t", "\n", " .", "!"]) } else { "" };
             let t = format!("{}{}{}{}{}{}", lead, common, rng.pick(&words), if rng.chance(1, 2) { " " } else { "" }, if rng.chance(1, 2) { *rng.pick(&words) } else { "" }, trail);
+            // one title in twelve has no word at all (it still has a place in the code-point order of titles)
+            let t = if rng.chance(1, 12) { rng.pick(&["", "---", "!!!", " ", "...", "-", "(", "--- !!!"]).to_string() } else { t };
             (i, t, (if distinct { i * 3 + rng.below(3) } else { rng.below(3) }) * rating_scale + rating_offset)
         };
         let mut recs: Vec<Rec> = (0..n).map(|i| mk(&mut cx.rng, i)).collect();
